@@ -303,7 +303,7 @@ func c11History(c *mon.Ctx, r *mon.Rand) {
 	owners := map[string]string{}
 	for _, sc := range scopes {
 		for _, n := range names {
-			for _, suffix := range []string{"", "h"} {
+			for _, suffix := range []string{"", "h", "z"} {
 				k := mon.IdentKey(rc.metricName(sc.id, n+suffix), sc.id.Tags)
 				me := sc.id.key() + "|" + n + suffix
 				if prev, ok := owners[k]; ok && prev != me {
@@ -343,7 +343,22 @@ func c11History(c *mon.Ctx, r *mon.Rand) {
 		for i := 0; i < nops; i++ {
 			s := scopes[r.Intn(len(scopes))]
 			name := names[r.Intn(len(names))]
-			switch op := r.Intn(12); {
+			switch op := r.Intn(13); {
+			case op == 12:
+				// a metric that is obtained and never recorded on is a metric: it has
+				// an entry (zero, no values) in every later snapshot
+				switch r.Intn(3) {
+				case 0:
+					get("counter", s, name+"z")
+					s.sc.Counter(name + "z")
+				case 1:
+					get("gauge", s, name+"z")
+					s.sc.Gauge(name + "z")
+				default:
+					get("timer", s, name+"z")
+					s.sc.Timer(name + "z")
+				}
+				ops = append(ops, fmt.Sprintf("%s: obtain %q without recording", s.id.Prefix, name+"z"))
 			case op <= 2:
 				v := r.AnyInt64()
 				if r.Bool() {
